@@ -80,6 +80,11 @@ def cases(seed, tier):
         pick = sysm if tier == "thorough" else rng.sample(sysm, 260)
         for name, code in pick:
             out.append({"name": "sys/cfg%d/%s" % (ci, name), "code": code, "config": cfg})
+    # a byte order mark in front of the text: positions are counted in the text behind it
+    for name, code in rng.sample(sysm, 40):
+        out.append({"name": "sys/bom/" + name, "code": "\ufeff" + code, "config": FULL_CFG})
+    for k, (pn, tmpl) in enumerate(LITERAL_PLACEMENTS[:6]):
+        out.append({"name": "lit/bom/%s" % pn, "code": "\ufeff" + tmpl.replace("LIT", "B%d_" % k + "x" * 20), "config": FULL_CFG})
     for name, code in sysm:
         if "/lit_recv_pad_end" in name or "/lit_recv_replace_all" in name:
             out.append({"name": "sys/cfg5x/" + name, "code": code, "config": SUBSET_CFGS[-1]})
@@ -89,7 +94,11 @@ def cases(seed, tier):
         g = gen.Gen(rng, max_depth=rng.choice([3, 4, 5, 6]), multiline=rng.random() < 0.3, reserved=reserved,
                     long_literals=rng.random() < 0.3)
         code = g.program()
-        cfg = gen.rand_config(rng, force_full=rng.random() < 0.4, prefix=None if (reserved is None and rng.random() < 0.15) else "p")
+        pfx = "p"
+        if reserved is None:
+            x = rng.random()
+            pfx = None if x < 0.15 else (rng.choice(["q", "caf\u00e9", "$x", "a1_b", "P", "\u4e2d"]) if x < 0.25 else "p")
+        cfg = gen.rand_config(rng, force_full=rng.random() < 0.4, prefix=pfx)
         out.append({"name": "rnd/%d" % i, "code": code, "config": cfg})
     # totality (C13): token-level mutations of valid programs, token soup, odd file names
     toks = ["(", ")", "{", "}", "[", "]", ";", ",", ".", "?.", "...", "=>", "=", "+=", "+", "`", "${", "'", '"', "/",
